@@ -413,6 +413,25 @@ def r3_checked_lookup(ctx):
             txt = [ast.unparse(s).replace(" ", "") for s in walk_no_nested(fn) if isinstance(s, ast.Assign)]
             ok = f"{pv}={pv}[{p1}]" in txt
             ctx.check(ok, "mat_intersect: haystack positions are trimmed by the same match vector", st)
+    # the keys that are searched and re-checked are byte views of both inputs in ONE common, lossless type
+    bv = [n for n in walk_no_nested(fn) if isinstance(n, ast.Call) and dotted(n.func) == "_bytes_view" and len(n.args) == 2]
+    if len(bv) != 2:
+        ctx.error("mat_intersect: two _bytes_view conversions expected", fn, len(bv))
+    else:
+        tys = {ast.unparse(c.args[1]) for c in bv}
+        ops = sorted(ast.unparse(c.args[0]) for c in bv)
+        ok = len(tys) == 1
+        ctx.check(ok, "mat_intersect: haystack and needles are viewed in the same dtype before the search and the re-check", bv[0], sorted(tys))
+        if ok:
+            tname = tys.pop()
+            tdef = [s2 for s2 in walk_no_nested(fn) if isinstance(s2, ast.Assign) and ast.unparse(s2.targets[0]) == tname]
+            good = False
+            if tdef and isinstance(tdef[-1].value, ast.Call) and dotted(tdef[-1].value.func) == "np.result_type":
+                a = sorted(ast.unparse(x) for x in tdef[-1].value.args)
+                good = a == sorted(f"{o}.dtype" for o in ops)
+            ctx.check(good, "mat_intersect: that dtype is np.result_type of both inputs (a conversion that is exact for both; casting the "
+                            "needles to the haystack type would make 3.9 match 3 and survive the re-check)", tdef[-1] if tdef else fn,
+                      None if good else (ast.unparse(tdef[-1]) if tdef else "no definition"))
     # other sorted-search sites in the anchored modules, listed with their kind
     others = []
     for rel in (N2P, LOCATE):
@@ -460,7 +479,7 @@ RULES = [
     ("C18-R1", r1_lattice, 200),
     ("C18-R1b", r1b_producer, 5),
     ("C18-R2", r2_mksetpv, 6),
-    ("C18-R3", r3_checked_lookup, 14),
+    ("C18-R3", r3_checked_lookup, 16),
     ("C18-R4", r4_expanddof, 4),
 ]
 LEVEL = "other"
